@@ -94,6 +94,14 @@ class SymNP(object):
             return a
         return _np.array(x, dtype=dtype, **kw)
 
+    def zeros_like(self, x, dtype=None, **kw):
+        a = _np.zeros_like(x, **kw) if dtype is None else _np.zeros_like(x, dtype=self._dt(dtype), **kw)
+        return a.astype(object) if a.dtype.kind == 'f' else a
+
+    def empty_like(self, x, dtype=None, **kw):
+        a = _np.empty_like(x, **kw) if dtype is None else _np.empty_like(x, dtype=self._dt(dtype), **kw)
+        return a.astype(object) if a.dtype.kind == 'f' else a
+
     def asarray(self, x, dtype=None, **kw):
         # numpy does not copy when the input already is an array of the
         # requested type; object arrays stand for float64 arrays here
